@@ -71,8 +71,25 @@ func NewPkgIndex(m *Module, p *pkgT) *PkgIndex {
 	for _, f := range sortedFuncs(ix.Funcs) {
 		ix.All = append(ix.All, f)
 		ix.scan(f, f.Decl.Body, info)
+		if f.Obj != nil {
+			declRegistry.Store(f.Obj.Origin(), f)
+		}
 	}
 	return ix
+}
+
+// declRegistry: resolved function object → its declaration, for every package indexed so far (used by the decision-table
+// evaluator to fold calls of small pure helpers).
+var declRegistry sync.Map
+
+func declOf(fn *types.Func) *FuncInfo {
+	if fn == nil {
+		return nil
+	}
+	if v, ok := declRegistry.Load(fn.Origin()); ok {
+		return v.(*FuncInfo)
+	}
+	return nil
 }
 
 // scan walks the body of fn (not descending into nested literals, which are scanned recursively as their own functions).
